@@ -25,6 +25,7 @@ type Runner struct {
 	base    int
 	cleanup func()
 	copies  int
+	Dead    bool // a step deadlocked inside the shard: it cannot be closed any more
 }
 
 // StepInfo says what a step did.
@@ -53,7 +54,7 @@ func New(h gen.History) (*Runner, error) {
 
 // Close closes the shard and removes the case directory.
 func (r *Runner) Close() {
-	if r.S != nil {
+	if r.S != nil && !r.Dead {
 		r.S.Close()
 	}
 	r.cleanup()
@@ -61,7 +62,17 @@ func (r *Runner) Close() {
 
 // Apply executes one step on the model and on the shard and checks that they
 // agree on acceptance and on the reported ids.
-func (r *Runner) Apply(st gen.Step) (StepInfo, error) {
+func (r *Runner) Apply(st gen.Step) (info StepInfo, err error) {
+	// a step that never returns because every goroutine is parked on a lock is a deadlock inside the
+	// shard (see drive.Watch); the instance cannot be closed afterwards
+	if werr := drive.Watch(fmt.Sprintf("the %s step", st.Kind), func() { info, err = r.apply(st) }); werr != nil {
+		r.Dead = true
+		return info, werr
+	}
+	return info, err
+}
+
+func (r *Runner) apply(st gen.Step) (StepInfo, error) {
 	info := StepInfo{Before: r.M.Clone()}
 	switch st.Kind {
 	case "insert":
@@ -135,4 +146,3 @@ func (r *Runner) Copy(mgr *cache.Manager) (*drive.Shard, error) {
 	}
 	return drive.Open(cp, r.H.Schema, r.H.MaxPointSize, mgr)
 }
-
